@@ -29,8 +29,9 @@ Theorem record_read_is_own : forall inline cap no nj intr s, reachable (init inl
 Proof. exact record_read_is_own_pf. Qed.
 Print Assumptions record_read_is_own.
 
-(* GUARD: no ESHUTDOWN/ETIMEDOUT interrupt is delivered to a caller blocked in call() (s_intr = false).
-   Then call() returns only after its task ran and finished exactly once and signalled, and the caller's frame
+(* the code of the working tree (`s_intr = false`: do_call waits again when aop.suspend() gives up).  Under EVERY
+   schedule — including ESHUTDOWN / ETIMEDOUT interrupts of a caller blocked in call() at any moment (label LIntr) —
+   call() returns only after its task ran and finished exactly once and signalled, and the caller's frame
    (lambda + awaiter) is never touched after call() returned. *)
 Theorem call_returns_after_finish : forall inline cap no nj s, reachable (init inline cap no nj false) s ->
   g_uaf s = false /\
@@ -38,14 +39,20 @@ Theorem call_returns_after_finish : forall inline cap no nj s, reachable (init i
 Proof. exact call_returns_after_finish_pf. Qed.
 Print Assumptions call_returns_after_finish.
 
-(* FINDING C08-F1: with such an interrupt (thread.h 520-526: semaphore::wait gives up on ESHUTDOWN / ETIMEDOUT;
-   workerpool.cpp 92 ignores suspend()'s result) call() returns before the task finished, and the task then
-   touches the dead frame. *)
-Theorem call_returns_after_finish_refuted :
+(* the interrupt is really part of the schedules quantified over: it is enabled while a caller is blocked *)
+Theorem call_interrupt_enabled :
+  exists s s', run (init false 4 1 0 false) [LSubmit true] = Some s /\ step s (LIntr 0) = Some s'.
+Proof. exact call_interrupt_enabled_pf. Qed.
+Print Assumptions call_interrupt_enabled.
+
+(* FINDING F37 (fixed by /repo f4b1a02), formal content: the code BEFORE the fix (`s_intr = true`: workerpool.cpp 92
+   ignored suspend()'s result, thread.h 520-526: semaphore::wait gives up on ESHUTDOWN / ETIMEDOUT) lets call()
+   return before the task finished, and the task then touches the dead frame. *)
+Theorem call_returns_after_finish_prefix_refuted :
   (exists s t, run (init false 4 1 0 true) witness_intr = Some s /\ gett s 0 = Some t /\ t_ret t = true /\ t_fin t = 0) /\
   (exists s, run (init false 4 1 0 true) witness_uaf = Some s /\ g_uaf s = true).
-Proof. exact call_returns_after_finish_refuted_pf. Qed.
-Print Assumptions call_returns_after_finish_refuted.
+Proof. exact call_returns_after_finish_prefix_refuted_pf. Qed.
+Print Assumptions call_returns_after_finish_prefix_refuted.
 
 (* an async task object is deleted at most once, only after it ran; a call() task is never deleted *)
 Theorem async_deleted_once : forall inline cap no nj intr s, reachable (init inline cap no nj intr) s ->
